@@ -63,60 +63,113 @@ def check_parallel_map(A, R: Report, f):
             'elements are not submitted exactly once each with their enumerate index', where=where(frun))
     handlers = [n for g in (f, frun, ffun) for n in A.typer.own_nodes(g) if isinstance(n, ast.ExceptHandler)]
     R.check(not handlers, 'R17.2', f'{name}: exceptions', key_of('handlers', len(handlers)), 'no handler between fun and the caller', 'an exception handler can swallow the exception raised by fun', where=where(f))
-    # --- completion-ordered collection inside _run
+    # --- order restoration: a small taint analysis over the two functions
     completes = [n for n in A.typer.own_nodes(frun) if isinstance(n, ast.Call) and src(n.func).endswith('as_completed')]
     if not completes:
         R.ok('R17.1', name, 'results are not collected in completion order', where=where(frun))
-        return
-    run_rets = [n for n in A.typer.own_nodes(frun) if isinstance(n, ast.Return) and n.value is not None]
-    # inside _run nothing may try to order by position (insert) - ordering is the job of the index sort
-    inserts = [n for g in (f, frun) for n in A.typer.own_nodes(g) if isinstance(n, ast.Call) and isinstance(n.func, ast.Attribute) and n.func.attr == 'insert']
-    # --- outer consumption of the awaited result
-    awaited = [n for n in A.typer.own_nodes(f) if isinstance(n, ast.Assign) and isinstance(n.value, ast.Call) and src(n.value.func).endswith('run_until_complete')
-               and n.value.args and isinstance(n.value.args[0], ast.Call) and src(n.value.args[0].func) == frun.name]
-    if not awaited or not run_rets:
-        R.undecided('R17.1', name, 'awaited result of _run not recognised', where=where(f))
-        return
-    sort_param = 'sort' if 'sort' in f.params else None
-    for a in awaited:
-        var = src(a.targets[0])
-        uses = [n for n in A.typer.own_nodes(f) if isinstance(n, ast.Name) and n.id == var and isinstance(n.ctx, ast.Load)]
-        problems = []
-        n_sorted = 0
-        for u in uses:
-            par = getattr(u, '_parent', None)
-            if isinstance(par, ast.Call) and src(par.func) == 'sorted' and par.args and par.args[0] is u:
-                if not _index_key(par):
-                    problems.append(f'`{src(par)[:60]}` does not sort on the submission index')
-                n_sorted += 1
-                # scope: the awaited call and the sort must sit in the same loop body iteration (indices restart per _run call)
-                loop_a = next((p for p in _parents(a) if isinstance(p, (ast.For, ast.While))), None)
-                loop_s = next((p for p in _parents(par) if isinstance(p, (ast.For, ast.While)) and p is not _stmt_of(par)), None)
-                stmt_s = _stmt_of(par)
-                in_same = loop_a is None or any(p is loop_a for p in _parents(stmt_s)) or stmt_s is loop_a
-                if not in_same:
-                    problems.append('the index sort is applied outside the loop in which the indices were assigned: indices restart per chunk, so results of different chunks interleave')
-            elif isinstance(par, ast.IfExp) and par.orelse is u and sort_param and src(par.test) == sort_param:
-                pass  # unsorted only when sort is false
-            elif isinstance(par, ast.IfExp) and par.body is u and sort_param and src(par.test) == f'not {sort_param}':
-                pass
-            else:
-                problems.append(f'the completion-ordered list `{var}` is used without the index sort in `{src(_stmt_of(u))[:70]}`')
-        if n_sorted == 0:
-            problems.append('no sort on the submission index restores the input order')
-        if inserts:
-            problems.append(f'`{src(inserts[0])[:50]}` orders results by position while they arrive in completion order')
-        # accumulating across chunks and sorting once
-        ext = [n for n in A.typer.own_nodes(f) if isinstance(n, ast.Call) and isinstance(n.func, ast.Attribute) and n.func.attr in ('extend', 'append') and n.args and var in src(n.args[0]) and 'sorted' not in src(n.args[0])]
-        if ext and sort_param is None:
-            problems.append('raw (index, result) pairs are accumulated before sorting')
-        R.check(not problems, 'R17.1', f'{name}: order restoration', key_of('order', sorted(set(problems))), 'completion order is undone by a sort on the submission index within its scope', '; '.join(sorted(set(problems))), where=where(f, a))
+    else:
+        problems = order_problems(A, f, frun)
+        if problems is None:
+            R.undecided('R17.1', name, 'order-restoration idiom not recognised', where=where(f))
+        else:
+            R.check(not problems, 'R17.1', f'{name}: order restoration', key_of('order', sorted(set(problems))), 'completion order is undone by a sort on the submission index within its scope',
+                    '; '.join(sorted(set(problems))), where=where(f))
     # sequential shortcut
     seqs = [n for n in A.typer.own_nodes(f) if isinstance(n, ast.Return) and isinstance(n.value, ast.ListComp) and isinstance(n.value.elt, ast.Call) and src(n.value.elt.func) == f.params[0]]
     ok = bool(seqs) and all(len(s.value.generators) == 1 and not s.value.generators[0].ifs and [src(x) for x in s.value.elt.args] == [src(s.value.generators[0].target)] for s in seqs)
     cfg = A.cfg(f)
     guarded = all(any(src(a_) == 'threads == 1' and pol for cn in cfg_nodes_for(cfg, s) for a_, pol in cfg.facts_at(cn.id)) for s in seqs)
     R.check(ok and guarded, 'R17.2', f'{name}: sequential path', key_of('sequential', ok, guarded), '[fun(x) for x in iterable] when threads == 1', 'the sequential shortcut is not a plain map over every element', where=where(f))
+
+
+def order_problems(A, f, frun):
+    """Problems with the way completion-ordered (index, result) pairs reach the returned list; None = idiom unknown.
+
+    Inside _run the awaited items arrive in completion order.  What _run returns is classified as
+      'pairs'   - a list of (index, result) pairs in completion order (append / list comprehension),
+      'indexed' - results stored at their index in a pre-sized list (order restored by construction),
+      'insert'  - results inserted at position i of a partially filled list (NOT an order restoration).
+    In the outer function a pair list coming from ONE _run call may be sorted on element 0; once pair lists of several
+    calls (a loop over chunks) are merged, element 0 is no longer unique and a sort on it interleaves the chunks."""
+    T = A.typer
+    problems = []
+    sort_param = 'sort' if 'sort' in f.params else None
+    # ---- classify _run
+    inserts = [n for n in T.own_nodes(frun) if isinstance(n, ast.Call) and isinstance(n.func, ast.Attribute) and n.func.attr == 'insert']
+    idx_stores = [n for n in T.own_nodes(frun) if isinstance(n, ast.Assign) and isinstance(n.targets[0], ast.Subscript) and not isinstance(n.targets[0].slice, ast.Slice)]
+    run_kind = 'pairs'
+    if inserts:
+        run_kind = 'insert'
+    elif idx_stores:
+        run_kind = 'indexed'
+    if run_kind == 'insert':
+        problems.append(f'`{src(inserts[0])[:50]}` inserts results at their index into a partially filled list: with out-of-order completion the positions shift')
+    # ---- outer function
+    calls = [n for n in T.own_nodes(f) if isinstance(n, ast.Call) and src(n.func).endswith('run_until_complete') and n.args and isinstance(n.args[0], ast.Call) and src(n.args[0].func) == frun.name]
+    if not calls:
+        return None
+    single = {}   # var -> pairs of one _run call
+    merged = set()  # vars holding pairs of several calls
+    returned_raw = False
+    for c in calls:
+        par = getattr(c, '_parent', None)
+        in_loop = any(isinstance(p, (ast.For, ast.While)) for p in _parents(c))
+        if isinstance(par, ast.Assign) and isinstance(par.targets[0], ast.Name):
+            single[par.targets[0].id] = (par, in_loop)
+        elif isinstance(par, ast.Call) and isinstance(par.func, ast.Attribute) and par.func.attr in ('extend', 'append') and isinstance(par.func.value, ast.Name):
+            if in_loop:
+                merged.add(par.func.value.id)
+            else:
+                single[par.func.value.id] = (par, in_loop)
+        elif isinstance(par, ast.AugAssign) and isinstance(par.target, ast.Name):
+            if in_loop:
+                merged.add(par.target.id)
+            else:
+                single[par.target.id] = (par, in_loop)
+        elif isinstance(par, ast.Return):
+            returned_raw = True
+        else:
+            return None
+    # pairs of one call copied into an accumulator inside a loop
+    for n in T.own_nodes(f):
+        if isinstance(n, ast.Call) and isinstance(n.func, ast.Attribute) and n.func.attr == 'extend' and isinstance(n.func.value, ast.Name) and n.args and isinstance(n.args[0], ast.Name) and n.args[0].id in single:
+            if any(isinstance(p, (ast.For, ast.While)) for p in _parents(n)):
+                merged.add(n.func.value.id)
+    if run_kind == 'pairs':
+        if returned_raw:
+            problems.append('the completion-ordered (index, result) pairs are returned as they are')
+        sorted_ok = False
+        for n in T.own_nodes(f):
+            tgt = None
+            if isinstance(n, ast.Call) and src(n.func) == 'sorted' and n.args and isinstance(n.args[0], ast.Name):
+                tgt = n.args[0].id
+            elif isinstance(n, ast.Call) and isinstance(n.func, ast.Attribute) and n.func.attr == 'sort' and isinstance(n.func.value, ast.Name):
+                tgt = n.func.value.id
+            if tgt is None:
+                continue
+            if tgt in merged:
+                problems.append(f'`{src(n)[:60]}` sorts pairs merged from several chunks on their per-chunk index: results of different chunks interleave')
+            elif tgt in single:
+                if not _index_key(n):
+                    problems.append(f'`{src(n)[:60]}` does not sort on the submission index')
+                else:
+                    sorted_ok = True
+        # raw uses of single-call pair lists
+        for var, (defn, in_loop) in single.items():
+            for u in [x for x in T.own_nodes(f) if isinstance(x, ast.Name) and x.id == var and isinstance(x.ctx, ast.Load)]:
+                par = getattr(u, '_parent', None)
+                if isinstance(par, ast.Call) and src(par.func) == 'sorted' and par.args and par.args[0] is u:
+                    continue
+                if isinstance(par, ast.Attribute) and par.attr == 'sort':
+                    continue
+                if isinstance(par, ast.IfExp) and sort_param and ((par.orelse is u and src(par.test) == sort_param) or (par.body is u and src(par.test) == f'not {sort_param}')):
+                    continue
+                if isinstance(par, ast.Call) and isinstance(par.func, ast.Attribute) and par.func.attr == 'extend' and var in single and par.func.value is not u:
+                    continue  # judged through the accumulator
+                problems.append(f'the completion-ordered list `{var}` is used without the index sort in `{src(_stmt_of(u))[:70]}`')
+        if not sorted_ok and not problems:
+            problems.append('no sort on the submission index restores the input order')
+    return problems
 
 
 def _parents(n):
